@@ -29,7 +29,10 @@ const Rule = "cases = little programs over named automata drawn from VERIF_SEED:
 	"results are mutated and the operands re-checked); alphabets with gaps ({a,c}, {b,x}, {1,b}), mostly partial " +
 	"DFAs, state ids mostly with gaps and sometimes negative (never -1), alphabets of two or three symbols; cases " +
 	"that assign the exported Start/Final fields directly (Final as a sorted, an insertion-ordered or an unordered " +
-	"set; with an unordered set only languages, not structures, are compared); distinct = distinct (header, op list)"
+	"set; with an unordered set only languages, not structures, are compared); every case ends with read-only ops on hand-built and derived " +
+	"automata: States, Symbols (NFA and DFA), the exported Next (entries that exist, missing ones, eps, an entry with an " +
+	"empty target set) and a range over Transitions() broken off after k = 0, a few, or more transitions than there " +
+	"are, each checked against the entries the case added when the automaton is hand-built; distinct = distinct (header, op list)"
 
 // ---------------------------------------------------------------- words and languages
 
@@ -130,6 +133,78 @@ type raw struct {
 	start int
 	final map[int]bool
 	edges map[edge]bool
+	keys  map[[2]int]bool // (s, a) pairs for which Add was called (an NFA entry can have an empty target set)
+}
+
+// targets of the entry (s, a), ascending; ok = the entry exists
+func (r *raw) entry(s, a int) (ts []int, ok bool) {
+	if !r.keys[[2]int{s, a}] {
+		return nil, false
+	}
+	for e := range r.edges {
+		if e.s == s && e.a == a {
+			ts = append(ts, e.t)
+		}
+	}
+	sort.Ints(ts)
+	return ts, true
+}
+
+// the sorted symbols that label an entry (without eps for an NFA) and the sorted states: what Symbols()/States() promise
+func (r *raw) symbols(nfa bool) []int {
+	seen := map[int]bool{}
+	out := []int{}
+	for k := range r.keys {
+		if !(nfa && k[1] == 0) && !seen[k[1]] {
+			seen[k[1]] = true
+			out = append(out, k[1])
+		}
+	}
+	sort.Ints(out)
+	return out
+}
+
+func (r *raw) states() []int {
+	seen := map[int]bool{r.start: true}
+	for f := range r.final {
+		seen[f] = true
+	}
+	for k := range r.keys {
+		seen[k[0]] = true
+	}
+	for e := range r.edges {
+		seen[e.t] = true
+	}
+	out := []int{}
+	for x := range seen {
+		out = append(out, x)
+	}
+	sort.Ints(out)
+	return out
+}
+
+func sameInts(a, b []int) bool {
+	if len(a) != len(b) {
+		return false
+	}
+	for i := range a {
+		if a[i] != b[i] {
+			return false
+		}
+	}
+	return true
+}
+
+func allDigits(x string) bool {
+	if x == "" {
+		return false
+	}
+	for _, c := range x {
+		if c < '0' || c > '9' {
+			return false
+		}
+	}
+	return true
 }
 
 func (r *raw) closure(S map[int]bool) map[int]bool {
@@ -321,6 +396,15 @@ func states(xs []int) []automata.State {
 	return r
 }
 
+// ints converts a slice of states or symbols to ints
+func ints[T ~int | ~int32](xs []T) []int {
+	r := make([]int, len(xs))
+	for i, x := range xs {
+		r[i] = int(x)
+	}
+	return r
+}
+
 func showStates(xs []automata.State) string {
 	ss := make([]string, len(xs))
 	for i, x := range xs {
@@ -506,7 +590,7 @@ func Exec(c hx.Case) hx.Result {
 					if err != nil || !ok {
 						return
 					}
-					rw := &raw{start: s, final: map[int]bool{}, edges: map[edge]bool{}}
+					rw := &raw{start: s, final: map[int]bool{}, edges: map[edge]bool{}, keys: map[[2]int]bool{}}
 					for _, x := range fs {
 						rw.final[x] = true
 					}
@@ -532,6 +616,7 @@ func Exec(c hx.Case) hx.Result {
 					}
 					r.n.Add(automata.State(s), automata.Symbol(a), states(ts))
 					if r.raw != nil {
+						r.raw.keys[[2]int{s, a}] = true
 						for _, t := range ts {
 							r.raw.edges[edge{s, a, t}] = true
 						}
@@ -559,6 +644,7 @@ func Exec(c hx.Case) hx.Result {
 							}
 						}
 						r.raw.edges[edge{s, a, t}] = true
+						r.raw.keys[[2]int{s, a}] = true
 						r.lang = r.raw.language(ws)
 					} else {
 						r.lang = nil
@@ -639,19 +725,147 @@ func Exec(c hx.Case) hx.Result {
 					if len(f) != 2 || regs[f[1]] == nil {
 						return
 					}
-					if r := regs[f[1]]; r.n != nil {
-						out = "ok " + showStates(r.n.States())
+					r := regs[f[1]]
+					var got []automata.State
+					if r.n != nil {
+						got = r.n.States()
 					} else {
-						out = "ok " + showStates(r.d.States())
+						got = r.d.States()
 					}
+					out = "ok " + showStates(got)
+					if r.raw != nil {
+						if want := r.raw.states(); !sameInts(ints(got), want) {
+							bad(i, "", "states %s = %v, the automaton was built with the states %v", f[1], got, want)
+						}
+					}
+					tags["op=states"] = true
 				case "symbols":
 					if len(f) != 2 || regs[f[1]] == nil {
 						return
 					}
-					if r := regs[f[1]]; r.n != nil {
-						out = "ok " + showSymbols(r.n.Symbols())
+					r := regs[f[1]]
+					var got []automata.Symbol
+					if r.n != nil {
+						got = r.n.Symbols()
+						tags["op=symbols-nfa"] = true
 					} else {
-						out = "ok " + showSymbols(r.d.Symbols())
+						got = r.d.Symbols()
+						tags["op=symbols-dfa"] = true
+					}
+					out = "ok " + showSymbols(got)
+					if r.raw != nil {
+						// sorted, duplicate-free symbols of the table (an NFA leaves eps out)
+						if want := r.raw.symbols(r.n != nil); !sameInts(ints(got), want) {
+							bad(i, "", "symbols %s = %v, the table of the automaton has the symbols %v", f[1], got, want)
+						}
+					}
+				case "next":
+					// next X s a: the exported Next (NFA: nil or the target list; DFA: the target or -1)
+					if len(f) != 4 || regs[f[1]] == nil {
+						return
+					}
+					sv, e1 := strconv.Atoi(f[2])
+					av, e2 := strconv.Atoi(f[3])
+					if e1 != nil || e2 != nil {
+						return
+					}
+					r := regs[f[1]]
+					if r.n != nil {
+						got := r.n.Next(automata.State(sv), automata.Symbol(av))
+						switch {
+						case got == nil:
+							out = "ok nil"
+							tags["next-nfa-nil"] = true
+						case len(got) == 0:
+							out = "ok []"
+							tags["next-nfa-empty-entry"] = true
+						default:
+							out = "ok " + showStates(got)
+							tags["next-nfa-targets"] = true
+						}
+						if r.raw != nil {
+							want, ok := r.raw.entry(sv, av)
+							if ok != (got != nil) || !sameInts(ints(got), want) {
+								bad(i, "", "next %s %d %d = %v (nil=%v), the automaton was built with the targets %v (entry=%v)", f[1], sv, av, got, got == nil, want, ok)
+							}
+						}
+					} else {
+						got := r.d.Next(automata.State(sv), automata.Symbol(av))
+						out = "ok " + strconv.Itoa(int(got))
+						if got == -1 {
+							tags["next-dfa-none"] = true
+						} else {
+							tags["next-dfa-target"] = true
+						}
+						if r.raw != nil {
+							want, ok := r.raw.entry(sv, av)
+							if (!ok && got != -1) || (ok && (len(want) != 1 || int(got) != want[0])) {
+								bad(i, "", "next %s %d %d = %d, the automaton was built with the target %v", f[1], sv, av, got, want)
+							}
+						}
+					}
+				case "trans":
+					// trans X k: range over X.Transitions() and break as soon as k transitions have been collected
+					if len(f) != 3 || regs[f[1]] == nil || !allDigits(f[2]) {
+						return
+					}
+					k, err := strconv.Atoi(f[2])
+					if err != nil {
+						return
+					}
+					r := regs[f[1]]
+					var ts []string
+					cnt, broke := 0, false
+					type item struct {
+						s, a int
+						nx   []int
+					}
+					var items []item
+					if r.n != nil {
+						for tr := range r.n.Transitions() {
+							if cnt == k {
+								broke = true
+								break
+							}
+							nx := make([]string, len(tr.Next))
+							for q, t := range tr.Next {
+								nx[q] = strconv.Itoa(int(t))
+							}
+							ts = append(ts, fmt.Sprintf("%d/%d/%s", tr.State, tr.Symbol, strings.Join(nx, ",")))
+							items = append(items, item{int(tr.State), int(tr.Symbol), ints(tr.Next)})
+							cnt++
+						}
+					} else {
+						for tr := range r.d.Transitions() {
+							if cnt == k {
+								broke = true
+								break
+							}
+							ts = append(ts, fmt.Sprintf("%d/%d/%d", tr.State, tr.Symbol, tr.Next))
+							items = append(items, item{int(tr.State), int(tr.Symbol), []int{int(tr.Next)}})
+							cnt++
+						}
+					}
+					out = "ok [" + strings.Join(ts, " ") + "]"
+					if broke {
+						tags["trans-early-exit"] = true
+					} else {
+						tags["trans-complete"] = true
+					}
+					if r.raw != nil {
+						// an iterator over the table: min(k, entries) distinct entries, each with its own target set
+						total := len(r.raw.keys)
+						if want := min(k, total); cnt != want || broke != (k < total) {
+							bad(i, "", "trans %s %d yielded %d transitions (stopped early = %v), the table has %d entries", f[1], k, cnt, broke, total)
+						}
+						seen := map[[2]int]bool{}
+						for _, it := range items {
+							want, ok := r.raw.entry(it.s, it.a)
+							if !ok || seen[[2]int{it.s, it.a}] || !sameInts(it.nx, want) {
+								bad(i, "", "trans %s %d yielded %d/%d/%v: entry exists = %v, targets built = %v, yielded before = %v", f[1], k, it.s, it.a, it.nx, ok, want, seen[[2]int{it.s, it.a}])
+							}
+							seen[[2]int{it.s, it.a}] = true
+						}
 					}
 				case "acc":
 					if len(f) != 2 || regs[f[1]] == nil {
@@ -1264,6 +1478,41 @@ func scribble(r *hx.Rand, x string, st []int, sigma []int, dfa bool) string {
 	return fmt.Sprintf("add %s %d %d %d", x, s, a, t)
 }
 
+// probe emits read-only ops on the automaton x: States, Symbols, a dump, the exported Next on entries that exist,
+// on missing ones and on eps, and a range over Transitions() that is broken off after k transitions (k = 0, a few,
+// or more than there are).  st = state ids worth asking for.
+func probe(r *hx.Rand, x string, st []int, sigma []int, full bool) []string {
+	if len(st) == 0 {
+		st = []int{0, 1}
+	}
+	sym := func() int {
+		switch r.Intn(8) {
+		case 0:
+			return 0 // eps
+		case 1:
+			return 121 // not in any alphabet
+		default:
+			return hx.Pick(r, sigma)
+		}
+	}
+	state := func() int {
+		if r.Chance(1, 8) {
+			return 77 // not a state
+		}
+		return hx.Pick(r, st)
+	}
+	k := r.Intn(4)
+	if r.Chance(1, 5) {
+		k = r.Range(4, 40)
+	}
+	ops := []string{fmt.Sprintf("trans %s %d", x, k), fmt.Sprintf("next %s %d %d", x, state(), sym())}
+	if full {
+		ops = append(ops, "symbols "+x, "states "+x, fmt.Sprintf("next %s %d %d", x, state(), sym()),
+			fmt.Sprintf("next %s %d %d", x, hx.Pick(r, st), hx.Pick(r, sigma)), fmt.Sprintf("trans %s %d", x, r.Intn(3)), "dump "+x)
+	}
+	return ops
+}
+
 func genCase(r *hx.Rand) hx.Case {
 	var ops []string
 	maxN := 4
@@ -1293,6 +1542,10 @@ func genCase(r *hx.Rand) hx.Case {
 		}
 		ops = append(ops, "todfa D A", "todfa DC C", "min M DC", "elim L DC", "reidx R L", "min M2 R")
 		ops = append(ops, "clone K A", "equal K A", "rename Q A "+renaming(r, statesOfOps(a)), "iso A Q", "iso Q A", "iso A B")
+		ops = append(ops, probe(r, "A", statesOfOps(a), sigma, true)...)
+		ops = append(ops, probe(r, "B", statesOfOps(b), sigma, r.Chance(1, 2))...)
+		ops = append(ops, probe(r, hx.Pick(r, []string{"S", "U", "C", "C2", "K", "Q"}), []int{0, 1, 2, 3}, sigma, false)...)
+		ops = append(ops, probe(r, hx.Pick(r, []string{"D", "DC", "M", "L", "R", "M2"}), []int{0, 1, 2}, sigma, true)...)
 	case 2: // DFA pipeline
 		a := genDFA(r, "A", maxN, sigma)
 		b := genDFA(r, "B", maxN, sigma)
@@ -1301,14 +1554,22 @@ func genCase(r *hx.Rand) hx.Case {
 		ops = append(ops, "acc A", "min M A", "elim L A", "reidx R A", "reidx RL L", "min ML RL", "tonfa N A", "todfa D N", "clone K A", "equal K A")
 		ops = append(ops, "combine X A B", "combine Y B A M", "combine W A")
 		ops = append(ops, "rename Q A "+renaming(r, statesOfOps(a)), "iso A Q", "iso Q A", "iso A B", "iso M ML")
+		ops = append(ops, probe(r, "A", statesOfOps(a), sigma, true)...)
+		ops = append(ops, probe(r, "B", statesOfOps(b), sigma, r.Chance(1, 2))...)
+		ops = append(ops, probe(r, hx.Pick(r, []string{"M", "L", "R", "RL", "ML", "D", "K", "X", "Y", "W"}), []int{0, 1, 2, 3}, sigma, true)...)
+		ops = append(ops, probe(r, "N", statesOfOps(a), sigma, false)...)
 	case 3: // mixed: regular-expression-like nesting
 		ops = append(ops, genNFA(r, "A", 3, sigma)...)
 		ops = append(ops, genNFA(r, "B", 3, sigma)...)
 		ops = append(ops, genNFA(r, "Z", 3, sigma)...)
 		ops = append(ops, "star S A", "concat C S B", "union U C Z", "star T U", "concat V T A", "todfa D V", "elim L D", "reidx R L", "min M R", "tonfa N M", "star W N")
+		ops = append(ops, probe(r, hx.Pick(r, []string{"A", "B", "Z", "S", "C", "U", "T", "V", "N", "W"}), []int{0, 1, 2, 3, 4}, sigma, true)...)
+		ops = append(ops, probe(r, hx.Pick(r, []string{"D", "L", "R", "M"}), []int{0, 1, 2}, sigma, true)...)
 	case 4: // Minimize on DFAs produced by the subset construction (no unreachable states), cleaned first
 		ops = append(ops, genNFA(r, "A", maxN, sigma)...)
 		ops = append(ops, "todfa D A", "elim L D", "reidx R L", "min M R", "min MM M", "iso M MM", "combine X R M", "tonfa N R", "star S N", "todfa DS S", "min MS DS")
+		ops = append(ops, probe(r, hx.Pick(r, []string{"D", "L", "R", "M", "MM", "X", "DS", "MS"}), []int{0, 1, 2, 3}, sigma, true)...)
+		ops = append(ops, probe(r, hx.Pick(r, []string{"A", "N", "S"}), []int{0, 1, 2, 3}, sigma, true)...)
 	case 5: // aliasing, NFA side: scribble on the operands after an operation, then on the results
 		a := genNFA(r, "A", maxN, sigma)
 		b := genNFA(r, "B", maxN, sigma)
@@ -1324,6 +1585,9 @@ func genCase(r *hx.Rand) hx.Case {
 			scribble(r, "S", []int{0, 1, 2}, sigma, false), scribble(r, "D", []int{0, 1}, sigma, true),
 			scribble(r, "K", sa, sigma, false), scribble(r, "N", []int{0, 1}, sigma, false))
 		ops = append(ops, "acc A", "acc B", "dump A", "dump B", "acc D", "dump D", "equal K A")
+		ops = append(ops, probe(r, "A", sa, sigma, true)...)
+		ops = append(ops, probe(r, hx.Pick(r, []string{"U", "C", "S", "K", "N"}), []int{0, 1, 2, 3}, sigma, false)...)
+		ops = append(ops, probe(r, "D", []int{0, 1, 2}, sigma, false)...)
 	case 7, 8: // direct assignment of the exported Start / Final fields
 		kindF := "stable"
 		if kind == 8 {
@@ -1354,6 +1618,9 @@ func genCase(r *hx.Rand) hx.Case {
 		ops = append(ops, "acc A", "acc B", "star S A", "acc S", "union U A A", "acc U", "concat C A A", "acc C", "todfa D A", "acc D", "clone K A", "acc K", "equal K A",
 			"min M B", "acc M", "elim L B", "acc L", "reidx R B", "acc R", "tonfa N B", "acc N", "clone KB B", "acc KB", "combine X B B", "acc X",
 			"rename Q A "+renaming(r, sa), "iso A Q", "rename QB B "+renaming(r, sb), "iso B QB", "min MD D", "acc MD")
+		// read-only ops on the hand-built automata only: a derived structure depends on the iteration order of an unordered Final
+		ops = append(ops, probe(r, "A", sa, sigma, true)...)
+		ops = append(ops, probe(r, "B", sb, sigma, true)...)
 	default: // aliasing, DFA side
 		a := genDFA(r, "A", maxN, sigma)
 		b := genDFA(r, "B", maxN, sigma)
@@ -1367,6 +1634,9 @@ func genCase(r *hx.Rand) hx.Case {
 		ops = append(ops, scribble(r, "M", []int{0, 1}, sigma, true), scribble(r, "L", sa, sigma, true), scribble(r, "R", []int{0, 1}, sigma, true),
 			scribble(r, "K", sa, sigma, true), scribble(r, "N", sa, sigma, false), scribble(r, "X", []int{0, 1, 2}, sigma, true))
 		ops = append(ops, "acc A", "acc B", "dump A", "dump B", "min M2 A", "equal K A")
+		ops = append(ops, probe(r, "A", sa, sigma, true)...)
+		ops = append(ops, probe(r, hx.Pick(r, []string{"M", "L", "R", "K", "X", "M2"}), []int{0, 1, 2}, sigma, false)...)
+		ops = append(ops, probe(r, "N", sa, sigma, false)...)
 	}
 	if kind == 5 || kind == 6 {
 		return hx.Case{Header: fmt.Sprintf("comp=automata k=4 sig=%s alias=1", joinInts(sigma)), Ops: ops}
@@ -1400,7 +1670,9 @@ func exhaustive2(run *hx.Run) int {
 				ops = append(ops,
 					"nfa P 0 1", "add P 0 97 1", "add P 1 98 0", // a(ba)*
 					"acc A", "star S A", "union U A P", "concat C A P", "concat C2 P A", "concat C3 A A",
-					"todfa D A", "elim L D", "reidx R L", "min M R", "rename Q A 3:7,7:3", "iso A Q")
+					"todfa D A", "elim L D", "reidx R L", "min M R", "rename Q A 3:7,7:3", "iso A Q",
+					"states A", "symbols A", "next A 3 97", "next A 7 0", "next A 7 98", fmt.Sprintf("trans A %d", code%5), "trans A 6",
+					"symbols D", "states M", "next D 0 98", fmt.Sprintf("trans D %d", code%3), "trans M 1")
 				run.Do("automata", hx.Case{Header: "comp=automata k=4", Ops: ops}, Exec)
 				count++
 			}
